@@ -17,6 +17,11 @@ def run(tier, seed):
     # (b) the real Memfs explored to ITS fix-point over the same alphabet; every transition judged by TLC
     s0 = vfsrun.bfs(out, "nolink", ["--links", "0"])
     vfsrun.crosscheck(out, "names{a,b} depth2 links0", s0, m0)
+    # same fix-point with sibling names where one is a string prefix of the other and one is multi-byte: component-wise vs
+    # string-wise path handling, byte vs character offsets
+    sp = vfsrun.bfs(out, "names-a-ab", ["--links", "0", "--names", "a,ab"])
+    vfsrun.crosscheck(out, "names{a,ab} depth2 links0", sp, m0)
+    vfsrun.bfs(out, "names-e9", ["--links", "0", "--names", "\u00e9,a", "--maxstates", "200"])
     if thorough:
         s1 = vfsrun.bfs(out, "link1", ["--links", "1"], groups_per_chunk=430)
         vfsrun.crosscheck(out, "names{a,b} depth2 links<=1", s1, m1)
